@@ -19,6 +19,7 @@ BATCHES = {
         ("poor", 8, 100, {}),
         ("sidauth", 8, 100, {}),
         ("poorreward", 6, 100, {}),
+        ("valset", 8, 100, {}),
         # the same drivers through the real ABCI boundary (signed DeliverTx, EndBlock/Commit/BeginBlock of every module in
         # app.go's order): module wiring, ante handler and baseapp rollback are part of what is observed
         ("pay", 2, 40, {"_abci": True}),
@@ -36,10 +37,12 @@ BATCHES = {
         ("poor", 80, 160, {}),
         ("sidauth", 80, 160, {}),
         ("poorreward", 60, 160, {}),
+        ("valset", 60, 160, {}),
         ("pay", 12, 80, {"_abci": True}),
         ("life", 12, 80, {"_abci": True}),
         ("scarce", 8, 80, {"_abci": True}),
         ("super", 8, 100, {"_abci": True}),
+        ("valset", 6, 100, {"_abci": True}),
         ("reward", 8, 100, {"_abci": True}),
         ("fault", 6, 80, {"_abci": True}),
         ("pay", 60, 140, {}),
@@ -232,6 +235,7 @@ MC_FAMILIES = {  # cfg file, (quick depth, thorough depth)
     "version": ("MC_Version.cfg", (10, 12)),
     "debt": ("MC_Debt.cfg", (7, 8)),
     "stagger": ("MC_Stagger.cfg", (12, 14)),
+    "valset": ("MC_ValSet.cfg", (5, 6)),          # three validators, two active: set rotation in the staking end-blocker
     "rewardage": ("MC_Reward.cfg", (6, 7)),      # the reward family from a genesis 5000 coins before the subsidy's first halving
 }
 MC_FAMILY_CFG = {"accounts": 8, "dids": 2, "validators": 2, "balance": 10000000, "blockReward": 840}
@@ -246,6 +250,8 @@ def _mc_family(args):
         gcfg = dict(MC_FAMILY_CFG, blockReward=2520, rewardBase="199999999995000")
     if fam == "fault":
         gcfg = GEN_CFG                                     # a03 is a fishman
+    if fam == "valset":
+        gcfg = dict(MC_FAMILY_CFG, validators=3, maxValidators=2, vstorThreshold=2000000)
     if fam == "sidauth":
         gcfg = dict(MC_FAMILY_CFG, accounts=12)           # a09..a11 create and are bound to the sid DIDs
     rc, o, _ = run([binary, "genesis", "--cfg", json.dumps(gcfg), "--out", os.path.join(d, "genesis.json")])
